@@ -21,7 +21,8 @@ PROPS = {
         'text': 'Every point operation of fsIndex (get, [], []=, del, in, has_key, clear) and the bounded '
                 'min/max queries are proved, for all 8-byte keys and all index contents, to agree with a '
                 'sorted dictionary over the abstract view (whole-view postconditions + representation '
-                'invariant); iteration, len and save/load only by a labelled bounded stand-in.',
+                'invariant); FileStorage.record_iternext proved to return the smallest oid of the index not below `next` and the '
+                'smallest one after it (or None); iteration, len and save/load only by a labelled bounded stand-in.',
         'note': 'Trusted: pyvc and z3; BTrees OOBTree/fsBucket assumed sorted finite maps (C code); bucket '
                 'ownership A-BUCKET-OWN; mathematical ints; struct layout. Bounded part: <=3 keys of a 12-key scope.',
         'design_ref': 'DESIGN.md section 5 C19',
@@ -45,7 +46,8 @@ PROPS = {
                 'FileStorage.restore proved to raise the counter to a larger restored oid AT ONCE (before the vote); '
                 'DemoStorage.new_oid proved to return an id with no revision in either layer and not issued before, and '
                 'tpc_abort / tpc_finish to keep the issued set (an aborted store does not free an id). '
-                'MappingStorage allocation only bounded.',
+                'MappingStorage.new_oid proved like FileStorage\'s (old counter + 1, under the lock); that MappingStorage keeps '
+                'its counter above stored ids: bounded.',
         'note': 'Thread schedules are reduced to lock ownership (T3). Termination of DemoStorage\'s random probing is '
                 'not proved.',
         'design_ref': 'DESIGN.md section 5 C20',
@@ -140,8 +142,12 @@ PROPS = {
                 'tryToResolveConflict proved to hand the resolver the state of the revision the WRITER STARTED FROM '
                 '(loadSerial(oid, oldSerial)) - a revision that cannot be loaded ends in ConflictError, never in a merge '
                 'against another base; Connection.commit proved to check every remaining readCurrent oid, and '
-                'Connection._abort (also run by savepoint rollbacks) proved to keep the declared read dependencies.',
-        'note': 'MappingStorage store and Connection.readCurrent itself: bounded only; DemoStorage.store: proved (C16). '
+                'Connection._abort (also run by savepoint rollbacks) proved to keep the declared read dependencies; '
+                'Connection.readCurrent proved to record the oid with the serial the connection holds; '
+                'BaseStorage.checkCurrentSerialInTransaction proved to return normally only if the committed tid equals the '
+                'serial read (else ReadConflictError naming both); MappingStorage.store proved to accept only a new object '
+                'or the newest tid as serial (ordered-map model of its BTrees).',
+        'note': 'DemoStorage.store: proved under C16. getTid of MappingStorage/DemoStorage (A-GETTID): bounded only. '
                 'Schedules beyond lock ownership not explored.',
         'design_ref': 'DESIGN.md section 5 C03',
     },
@@ -222,7 +228,10 @@ PROPS['C02'] = {
             'proved to apply the polled invalidations (or flush the whole cache) before returning; the MVCC instance\'s '
             'store and storeBlob proved to add the oid to the set invalidated at finish; MappingStorage.loadBefore proved '
             '(over an ordered-map model of its BTrees) to return the greatest revision STRICTLY below the exclusive bound '
-            'and the least one at or above it as end.',
+            'and the least one at or above it as end; Connection.open proved to take the caller\'s transaction manager, to '
+            'reset the cache first if resetCaches() was called, to cross a boundary (newTransaction) unless the manager is '
+            'explicit, and to REGISTER the connection for the manager\'s later boundaries; afterCompletion proved to be a '
+            'boundary in implicit mode.',
     'note': 'NOT covered: the schedule quantifier. Lock-protected regions are treated as atomic (T3); a breakage '
             'visible only as a race that keeps every sequential contract and lock-ownership obligation true is not '
             'detected by this family. The instance registry is unrolled with three members. FilePool is an assumed '
@@ -253,9 +262,12 @@ PROPS['C15'] = {
             'opened with the caller\'s transaction manager, pools touched under the database lock; '
             'Connection.get_connection proved to open partner databases with the same transaction manager at the same '
             'historical moment (own bound, or just after the partner\'s newest transaction) and never with a bound the '
-            'partner refuses as future (finding F27, fixed).',
-    'note': 'Connection._commit\'s ReadOnlyHistoryError and the pool classes themselves are covered by the bounded '
-            'harness only (the pools are opaque objects with pop/push/availableGC in the DB.open contract). TimeStamp '
+            'partner refuses as future (finding F27, fixed); Connection.__init__ proved to read through '
+            'before_instance(bound) for exactly the bound it reports as .before (new_instance() for a live one), '
+            'MVCCAdapter.before_instance to build the historical adapter over its own storage at that bound, and '
+            'Connection._commit to refuse with ReadOnlyHistoryError before anything is handed to the storage.',
+    'note': 'The pool classes themselves are covered by the bounded harness only (opaque objects with '
+            'pop/push/availableGC in the DB.open contract). TimeStamp '
             'and utils.newTid are assumed contracts (A-TIMESTAMP).',
     'design_ref': 'DESIGN.md section 5 C15',
 }
@@ -340,8 +352,9 @@ PROPS['C17'] = {
             'the transaction tiling, tids growing) to stop at the FIRST transaction with tid >= start; '
             'blob.copyTransactionsFromTo proved: every transaction begun under its own tid/status, every record restored '
             'exactly once with its oid, tid, data and hint (as a blob iff it is one and the source has the file), voted '
-            'and finished.',
-    'note': 'BaseStorage.copy, FileIterator.__next__/_skip_to_start, the record iterator and fsrecover.recover as a '
+            'and finished; BaseStorage.copy (storages without blobs) proved likewise, incl. the tid handed to tpc_begin: the '
+            'source transaction\'s own while tids grow, a later stamp otherwise.',
+    'note': 'FileIterator.__next__/_skip_to_start, the record iterator and fsrecover.recover as a '
             'whole are covered by the bounded harness only; fsrecover.truncate, _txn_find (at restore\'s call site) and the '
             'source iterator of copyTransactionsFromTo (A-ITER) are assumed contracts.',
     'design_ref': 'DESIGN.md section 5 C17',
@@ -421,7 +434,8 @@ PROPS['C14'] = {
             'ObjectReader.load_persistent_weakref binds a loaded weak reference to the connection of the database it '
             'names (own connection only if it names none; NO data manager when that database is not configured); '
             'Connection._resetCache gives the connection one new empty cache of the same size AND switches its '
-            'ObjectReader to it (CACHE-SHARED: one object per id whether reached by get() or by reference). BOUNDED only - the first '
+            'ObjectReader to it (CACHE-SHARED: one object per id whether reached by get() or by reference), which '
+            'Connection.__init__ establishes. BOUNDED only - the first '
             'sentence of the property (graph round trip through zodbpickle, ObjectWriter.persistent_id, ObjectReader '
             'loaders, broken classes): random graphs through the real code.',
     'note': 'Everything inside zodbpickle and persistent (C code) is outside; A-NOLOAD assumed. persistent_id and the '
@@ -430,7 +444,7 @@ PROPS['C14'] = {
 }
 
 PROPS['C06'] = {
-    'modules': FS_MODULES + ['contracts.mvcc', 'contracts.undo'],
+    'modules': FS_MODULES + ['contracts.mvcc', 'contracts.undo', 'contracts.fs_iter'],
     'lemmas': [],
     'level': 'proof',
     'bounded': [
@@ -572,8 +586,10 @@ PROPS['C11'] = {
             'first; if joining is refused the connection does NOT consider itself joined and the list is untouched); '
             'register / add / _add decision tables (a refused join leaves the object unowned); close refuses before any '
             'effect while joined; commit checks every remaining readCurrent oid inside the storage transaction with and '
-            'without savepoints; tpc_vote ghostifies resolved / conflicting objects. BOUNDED only: _commit/_store_objects/'
-            'ObjectWriter (which objects are stored), savepoints (C12), cacheGC/open/pool reuse - by the program harness.',
+            'without savepoints; tpc_vote ghostifies resolved / conflicting objects; _commit hands to _store_objects (an '
+            'ObjectWriter of its own each) EXACTLY the registered objects that were added or are changed and not being '
+            'created, with the transaction given; __init__ starts with empty bookkeeping, still to join. BOUNDED only: '
+            '_store_objects/ObjectWriter (the graph walk), savepoints (C12), cacheGC/pool reuse - by the program harness.',
     'note': 'Assumes A-PERSISTENT, A-PICKLECACHE (C code) and CONNINV (representation invariant of the connection, not '
             'proved to be preserved by _store_objects). F20 (add with refused join) and F21 (new object that never '
             'reached the cache kept oid and jar after a failed commit) were produced by this check and are fixed.',
